@@ -59,7 +59,7 @@ def run(chk):
     _graph.run_family(chk, {"C10"}, tier="quick")
     retry_probe(chk, 25 if chk.tier == "quick" else 400)
     for lib in libs:
-        lib.run_family(chk, "C10")
+        _compose.run_lib(lib, chk, "C10")
     for f in _compose.load(["_funcs"], chk):
         if hasattr(f, "run_malformed"):
             f.run_malformed(chk)
